@@ -10,6 +10,7 @@ from torch import Tensor
 
 from linear_operator.operators._linear_operator import IndexType, LinearOperator
 
+from linear_operator.utils.generic import _to_helper
 from linear_operator.utils.getitem import _compute_getitem_size
 from linear_operator.utils.memoize import cached
 
@@ -26,11 +27,15 @@ class ZeroLinearOperator(LinearOperator):
     def __init__(
         self, *sizes: Tuple[int, ...], dtype: Optional[torch.dtype] = None, device: Optional[torch.device] = None
     ):
-        super(ZeroLinearOperator, self).__init__(*sizes)
+        dtype = dtype or torch.get_default_dtype()
+        device = device or torch.device("cpu")
+        # dtype / device must reach LinearOperator.__init__: clone / detach / to / type rebuild the operator as
+        # self.__class__(*self._args, **self._kwargs) and would otherwise fall back to the default dtype
+        super(ZeroLinearOperator, self).__init__(*sizes, dtype=dtype, device=device)
         self.sizes = list(sizes)
 
-        self._dtype = dtype or torch.get_default_dtype()
-        self._device = device or torch.device("cpu")
+        self._dtype = dtype
+        self._device = device
 
     @property
     def dtype(self) -> Optional[torch.dtype]:
@@ -54,11 +59,11 @@ class ZeroLinearOperator(LinearOperator):
 
     def _get_indices(self, row_index: IndexType, col_index: IndexType, *batch_indices: IndexType) -> torch.Tensor:
         new_size = _compute_getitem_size(self, batch_indices + (row_index, col_index))
-        return torch.zeros(*new_size)
+        return torch.zeros(*new_size, dtype=self._dtype, device=self._device)
 
     def _getitem(self, row_index: IndexType, col_index: IndexType, *batch_indices: IndexType) -> LinearOperator:
         new_size = _compute_getitem_size(self, batch_indices + (row_index, col_index))
-        return ZeroLinearOperator(*new_size)
+        return ZeroLinearOperator(*new_size, dtype=self._dtype, device=self._device)
 
     def _matmul(
         self: Float[LinearOperator, "*batch M N"],
@@ -194,7 +199,7 @@ class ZeroLinearOperator(LinearOperator):
         raise RuntimeError("ZeroLinearOperators are not invertible!")
 
     def logdet(self: Float[LinearOperator, "*batch M N"]) -> Float[Tensor, " *batch"]:
-        return torch.log(torch.tensor(0.0))
+        return torch.log(torch.tensor(0.0, dtype=self._dtype, device=self._device))
 
     def matmul(
         self: Float[LinearOperator, "*batch M N"],
@@ -228,9 +233,21 @@ class ZeroLinearOperator(LinearOperator):
     ) -> Union[Float[Tensor, "... N P"], Float[Tensor, "... N"], Float[Tensor, "... O P"], Float[Tensor, "... O"]]:
         raise RuntimeError("ZeroLinearOperators are not invertible!")
 
+    def to(self: Float[LinearOperator, "*batch M N"], *args, **kwargs) -> Float[LinearOperator, "*batch M N"]:
+        # there are no tensors to move or cast: dtype and device are plain keyword arguments
+        device, dtype = _to_helper(*args, **kwargs)
+        return self.__class__(
+            *self.sizes,
+            dtype=self._dtype if dtype is None else dtype,
+            device=self._device if device is None else device,
+        )
+
+    def type(self: LinearOperator, dtype: torch.dtype) -> LinearOperator:
+        return self.__class__(*self.sizes, dtype=dtype, device=self._device)
+
     @cached
     def to_dense(self: Float[LinearOperator, "*batch M N"]) -> Float[Tensor, "*batch M N"]:
-        return torch.zeros(*self.sizes)
+        return torch.zeros(*self.sizes, dtype=self._dtype, device=self._device)
 
     def transpose(self, dim1: int, dim2: int) -> LinearOperator:
         sizes = self.sizes.copy()
@@ -238,7 +255,7 @@ class ZeroLinearOperator(LinearOperator):
         sizes[dim1] = sizes[dim2]
         sizes[dim2] = tmp
 
-        return ZeroLinearOperator(*sizes)
+        return ZeroLinearOperator(*sizes, dtype=self._dtype, device=self._device)
 
     def __add__(
         self: Float[LinearOperator, "... #M #N"],
